@@ -54,7 +54,7 @@ def step (line : String) : String :=
       -- n (already 2·n for the triangle), side lengths
       let n ← nat; let s1 ← float; let s2 ← float
       let (n1, n2) := gridDims flNat n.toFloat s1 s2
-      return s!"{n1} {n2} {(baryGrid n1 n2).length} {(triGrid n1 n2).length} {(triGridStrict n1 n2).length}"
+      return s!"{n1} {n2} {(baryLattice n1 n2).length} {(triGrid n1 n2).length} {(triGridStrict n1 n2).length}"
     | "freevars" => do
       let d ← parseVDom floatFromRat
       return " ".intercalate d.freeVars
